@@ -48,7 +48,8 @@ G_FORMATS = ["nt", "turtle", "longturtle", "n3", "xml", "pretty-xml", "json-ld",
 KINDS = ([("ser_ds", f) for f in DS_FORMATS] + [("ser_view", f) for f in G_FORMATS] + [("query_ds", q) for q in QUERIES]
          + [("query_view", q) for q in ("q_select", "q_ask", "q_construct", "q_describe", "q_optional", "q_agg", "q_path", "q_exists")]
          + [(k, "") for k in ("iso", "to_iso", "canon", "diff", "iter", "slice", "value", "items", "cbd", "all_nodes", "connected",
-                              "graphs", "quads", "len", "contains", "resource", "path_eval", "triples_choices", "subjects", "contexts_of", "get_graph", "collection")])
+                              "graphs", "quads", "len", "contains", "resource", "path_eval", "triples_choices", "subjects", "contexts_of", "get_graph", "collection",
+                              "foreign_ctx", "graphs_of", "quad_patterns")])
 
 
 def do_read(w, kind, arg, target):
@@ -123,6 +124,20 @@ def do_read(w, kind, arg, target):
         return (sorted(map(repr, view.subjects(unique=True))), sorted(map(repr, view.predicate_objects(s1))), sorted(map(repr, ds.objects(s1, p1))))
     if kind == "contexts_of":
         return sorted(repr(c.identifier) for c in ds.store.contexts((s1, p1, o1)))
+    if kind == "foreign_ctx":
+        # questions that name a graph by a Graph object living in ANOTHER store (same and different identifier): nothing is brought in
+        f1 = Graph(identifier=view.identifier)
+        f2 = Graph(identifier=URIRef("urn:g:foreign"))
+        for f in (f1, f2):
+            f.add((URIRef("urn:x:foreign-s"), p1, o1))
+            f.add((s1, p1, URIRef("urn:x:foreign-o")))
+        return [((s1, p1, o1, f) in ds, sorted(map(repr, ds.triples((None, None, None), context=f))), sorted(repr(q[:3]) for q in ds.quads((None, p1, None, f))),
+                 sorted(map(repr, ds.triples_choices((s1, [p1], None), context=f)))) for f in (f1, f2)]
+    if kind == "graphs_of":
+        lister = ds.graphs if hasattr(ds, "graphs") else ds.contexts
+        return sorted(repr(g.identifier) for g in lister((s1, p1, o1)))
+    if kind == "quad_patterns":
+        return sorted(repr(q) for q in ds.quads((None, None, None, view.identifier))) + sorted(repr(q) for q in ds.quads((s1, None, None, view)))
     if kind == "get_graph":
         gg = ds.get_graph(view.identifier) if hasattr(ds, "get_graph") else None
         return repr(gg.identifier if gg is not None else None)
